@@ -160,6 +160,7 @@ class Repo(object):
         self.renamed = {}
         self.adopted = {}
         self.inlined = {}
+        self.segments = {}
         self.ref_trees = {}
         self._alpha_normalise()
 
@@ -195,6 +196,15 @@ class Repo(object):
                 if applied:
                     self.renamed[name] = applied
                     set_parents(mod.tree)
+        for name, mod in self.modules.items():
+            if name in ref and not os.environ.get("VERIF_NO_EQUIV") and not os.environ.get("VERIF_NO_SEGMENTS"):
+                if ast.dump(mod.tree) == ast.dump(ref[name]):
+                    continue
+                got = equiv.adopt_segments(mod.tree, ref[name], hier_cur, hier_ref)
+                if got:
+                    self.segments[name] = got
+                ast.fix_missing_locations(mod.tree)
+                set_parents(mod.tree)
 
     # -- lookup ------------------------------------------------------------
     def mod(self, name):
@@ -546,6 +556,8 @@ def finish(chk, t0, seed, error=None, extra_cov=None, out=sys.stdout, write=True
         "locals_renamed_to_reference": {m: {q: d for q, d in v.items()} for m, v in chk.repo.renamed.items()
                                         if m in chk.repo.consulted} if chk.repo else {},
         "helpers_inlined": {m: v for m, v in chk.repo.inlined.items() if m in chk.repo.consulted} if chk.repo else {},
+        "statements_proved_equivalent_to_reference": {m: v for m, v in chk.repo.segments.items()
+                                                      if m in chk.repo.consulted} if chk.repo else {},
         "units_proved_equivalent_to_reference": {m: v for m, v in chk.repo.adopted.items()
                                                  if m in chk.repo.consulted} if chk.repo else {},
         "known_findings_matched": [o.key for o in known_hit],
